@@ -1,4 +1,6 @@
 """C11 - incremental model updates equal the batch model on the concatenated data."""
+import contextlib
+import io
 import itertools
 
 import numpy as np
@@ -7,32 +9,49 @@ from hypothesis import strategies as st
 from vlib.runner import Clause
 from vlib import gen
 from vlib import refs_pca as rp
+from vlib import refs_incr as ri
 from vlib.tol import close, describe, maxdiff
 
+from menpo.image import Image
+from menpo.math import pca as menpo_pca, ipca as menpo_ipca
 from menpo.model import PCAModel, PCAVectorModel, GMRFVectorModel, GMRFModel
-from menpo.shape import PointCloud
 from menpo.shape import PointCloud, UndirectedGraph, DirectedGraph, Tree
 
 PROPERTY = "C11"
 RULE = (
-    "PCA: data X = mean + A diag(s) B^T (well-separated spectrum, spread <= 100, mean bounded away from 0) with "
-    "n = 4..16 samples on both sides of n = d, centred/uncentred; the sample sequence is cut into an initial "
-    "batch >= 2 and 1..k increments - EVERY composition for n <= 6 (quick) / n <= 8 (thorough), Hypothesis-drawn "
-    "pairs of compositions for larger n; forgetting factor 1.0. GMRF: graphs {edgeless, chain, cycle, star, "
+    "PCA: data X = mean + A diag(s) B^T (well-separated spectrum, spread <= 100, mean bounded away from 0; full rank "
+    "or, one case in three, of a drawn lower rank) with n = 4..16 samples on both sides of n = d, centred/uncentred; "
+    "the sample sequence is cut into an initial batch >= 2 and 1..k increments - EVERY composition for n <= 6 (quick) "
+    "/ n <= 8 (thorough), Hypothesis-drawn pairs of compositions for larger n. Staged PCA histories: X = offset + C B^T "
+    "with small-integer coordinates C whose row i is zero beyond r_j columns in stage j (r_1 < d, r_j non-decreasing): "
+    "the first stage (mostly longer than d) lies in a proper subspace (B a rotation), has stuck coordinates (B a "
+    "permutation) or repeats a few samples, later stages leave that subspace. Samples are handed over as ndarray, "
+    "list of rows, a longer list with n_samples=k (vector models), list of PointClouds / Images or a true generator "
+    "with n_samples=k (object models); forgetting factor 1.0 spelled out or left at its documented default 1.0; "
+    "verbose on/off; optionally fewer active components than components set on the initial model. "
+    "ipca called directly with m_a omitted/None/zeros on uncentred data. GMRF: graphs {edgeless, chain, cycle, star, "
     "random tree, random undirected with isolated vertices} as Undirected/Directed/Tree objects with relabelled "
     "vertices, 1-3 features per vertex, concatenation/subtraction, sparse/dense, bias 0/1, float64, data with "
-    "block covariances of condition <= 16 by construction, initial batch >= 2*block+2 samples, 1-4 increments. "
+    "block covariances of condition <= 16 by construction, |mean| <= 10 x {1, 1e2, 1e3}, initial batch >= 2*block+2 "
+    "samples, 1-4 increments, same sample containers. "
     "Non-trivial: >= 2 increments of unequal sizes or an increment of size 1 (PCA additionally: any split of "
-    "centred data, whose cross term is exercised); distinct = distinct canonical-JSON digest of the case"
+    "centred data, whose cross term is exercised; staged PCA: a rank-deficient model that has seen more samples than "
+    "dimensions receives an increment that raises its rank); distinct = distinct canonical-JSON digest of the case"
 )
 ASSUMPTIONS = [
-    "forgetting factor fixed to 1.0 (the property says: no forgetting)",
+    "no forgetting: forgetting factor 1.0, passed explicitly or left at the documented default of 1.0",
     "a centred model whose running mean is exactly zero is treated by ipca as uncentred; data means are bounded away from zero and the corner is skipped (event excluded:exact_zero_mean), not asserted either way",
-    "cases where some prefix of the sample sequence has an eigenvalue inside the eigenvalue floor's grey zone (1e-20..1e-8 relative or absolute) are skipped (event excluded:floor_grey_zone): pca/ipca legitimately truncate there",
-    "PCA tolerances scale with the worst prefix conditioning kappa = lambda_max/lambda_min over all prefixes: rtol = max(1e-7, 1e-12*kappa) for eigenvalues and projectors, 10x that for sign-aligned components (measured ipca error <= 1e-14*kappa; kappa is not controlled by construction, only the full data's spectrum is)",
+    "cases where some prefix of the sample sequence has an eigenvalue inside the eigenvalue floor's grey zone (1e-20..1e-8 relative) are skipped (event excluded:floor_grey_zone): pca/ipca legitimately truncate there; exactly rank-deficient prefixes (round-off eigenvalues ~1e-32 relative) are NOT skipped",
+    "histories in which an increment RESULTS in a model without any component (every sample so far identical / zero) are skipped (event excluded:increment_result_without_components): PCAVectorModel.increment raises ValueError there (n_active_components setter rejects 0) although the batch constructor accepts such data - reported, outside 'eigenvalues and principal subspace' in any meaningful sense; an initial batch without variance followed by informative increments IS checked",
+    "PCA tolerances scale with the worst prefix conditioning kappa = lambda_max/lambda_min(non-zero) over all prefixes: rtol = max(1e-7, 1e-12*kappa) for eigenvalues and projectors, 10x that for sign-aligned components (measured ipca error <= 1e-14*kappa, also on staged rank-deficient data; kappa is not controlled by construction, only the full data's spectrum is)",
+    "single (sign-aligned) components are compared only where the reference eigenvalues are separated by >= 1e-3 * lambda_max (by construction for prescribed spectra, measured for staged data); eigenvalues and the subspace projector are always compared",
+    "PCA state is read through the public interface only (n_samples, mean(), mean_vector, eigenvalues, components, n_components, n_active_components)",
+    "with fewer active components than components before an increment the check expects what the code documents in place: the active count is left alone, the active view shows the leading components, and the full state (re-activated through the public setter) equals the batch model",
+    "n_samples=k with a longer list means 'the first k entries' (vector models slice, as the constructor does); generators are only given to the Vectorizable-backed models, with n_samples equal to the number of items they yield",
     "PCA references: batch constructor on np.vstack(chunks) AND numpy SVD of the centred concatenated matrix",
     "GMRF references: batch GMRFVectorModel on np.vstack(chunks) AND a float64 sum of inverted per-edge (per-vertex when edgeless) sample covariances scattered to block positions",
     "GMRF bulk data come from numpy RandomState(drawn seed), orthonormalised so that the covariance of the concatenated data is W diag(s^2) W^T with drawn s in [0.5, 2]",
+    "GMRF incremental precision tolerance: rtol = max(1e-8, 2e2 * eps * (|mean|_max / s_min)^2) - the running covariance update subtracts second moments (measured error <= 4 * eps * ratio^2 over 6000 cases); mean scales above 1e3 are not asserted",
     "only the final model (after the last increment) is compared; prefixes have uncontrolled conditioning",
 ]
 
@@ -61,6 +80,9 @@ def compositions(total, min_first=2):
 
 _ENUM_CACHE = {}
 
+VECTOR_FEEDS = ["array", "list", "list_n", "list_n_exact"]
+OBJECT_FEEDS = ["list", "gen_n"]
+
 
 def enum_pca(tier):
     if tier in _ENUM_CACHE:
@@ -75,8 +97,19 @@ def enum_pca(tier):
                 for k in range(n_data):
                     rs = np.random.RandomState(1000 * n + 100 * int(centre) + 10 * d + k)
                     data = rp.seeded_data_case(rs, n, d, centre)
-                    for comp in comps:
-                        cases.append({"data": data, "splits": [comp], "kind": "vector", "side": side})
+                    for ci, comp in enumerate(comps):
+                        cases.append(
+                            {
+                                "data": data,
+                                "splits": [comp],
+                                "kind": "vector",
+                                "side": side,
+                                # how the samples are handed over / whether the forgetting factor is spelled out
+                                # alternates deterministically over the enumeration
+                                "feed": [VECTOR_FEEDS[(ci + k) % 3]],
+                                "ff_default": [bool((ci + k) % 2)],
+                            }
+                        )
     _ENUM_CACHE[tier] = cases
     return cases
 
@@ -98,8 +131,24 @@ def split_case(draw, n):
 
 
 @st.composite
+def run_options(draw, kind, n_splits=2):
+    """How each history is fed to the model (plain data, one entry per split)."""
+    feeds = VECTOR_FEEDS if kind == "vector" else OBJECT_FEEDS
+    return {
+        # ndarray / list of rows / longer list + n_samples=k / true generator + n_samples=k
+        "feed": [draw(st.sampled_from(feeds)) for _ in range(n_splits)],
+        # forgetting_factor left at its default (documented: 1.0 = no forgetting) or spelled out
+        "ff_default": [draw(st.booleans()) for _ in range(n_splits)],
+        # verbose=True only prints
+        "verbose": [draw(st.sampled_from([False, False, False, True])) for _ in range(n_splits)],
+        # 0: all components active; a > 0: the initial model gets n_active_components = 1 + (a-1) % (n_components-1)
+        "active": [draw(st.sampled_from([0, 0, 0, 1, 2, 3, 5])) for _ in range(n_splits)],
+    }
+
+
+@st.composite
 def s_pca_random_case(draw):
-    kind = draw(st.sampled_from(["vector", "vector", "pointcloud"]))
+    kind = draw(st.sampled_from(["vector", "vector", "vector", "pointcloud", "pointcloud", "image"]))
     side = draw(st.sampled_from(["n>d", "n>d", "n==d", "n<d", "n<d"]))
     n = draw(st.integers(4, 16))
     if side == "n>d":
@@ -112,24 +161,78 @@ def s_pca_random_case(draw):
         d += 1
         side = "n>d" if n > d else ("n==d" if n == d else "n<d")
     centre = draw(st.booleans())
-    data = draw(rp.data_case(n, d, centre, spread=100.0, s0=(1.0, 8.0), mean_gap=0.5))
-    return {
+    # the whole data set may lie in a proper subspace (rank r < full rank): every long enough prefix is then rank
+    # deficient, on both sides of n = d
+    full = rp.full_rank(n, d, centre)
+    r = None
+    if full >= 2 and draw(st.integers(0, 2)) == 0:
+        r = draw(st.integers(1, full - 1))
+    data = draw(rp.data_case(n, d, centre, r=r, spread=100.0, s0=(1.0, 8.0), mean_gap=0.5))
+    if r is not None:
+        # a rank-deficient cloud far from the origin has round-off eigenvalues of (eps * |mean| / s)^2 relative, which
+        # reach the excluded grey zone: rank-deficient clouds stay within |mean| <= 10
+        mx = max(abs(v) for v in data["mean"])
+        if mx > 10.0:
+            back = 1.0e5 if mx > 1.0e4 else 1.0e3
+            data["mean"] = [v / back for v in data["mean"]]
+    case = {
         "data": data,
         "splits": [draw(split_case(n)), draw(split_case(n))],
         # features that are identically zero in every sample (planar 3-D shapes, background pixels): the mean then has
         # exactly-zero entries without being the zero vector. 0 or 2 extra all-zero columns inserted at drawn positions
         "zero_cols": draw(st.sampled_from([[], [], [], [0, 0], [1, 3], [2, 5]])),
         # integer-valued samples handed over as integer-typed arrays (pixel counts, quantised coordinates)
-        "int_data": draw(st.sampled_from([None, None, None, "int64", "int64"])),
+        # (not for rank-deficient clouds: fixed-point rounding turns their zero eigenvalues into ~1e-13 relative ones,
+        # inside the excluded grey zone)
+        "int_data": draw(st.sampled_from([None, None, None, "int64", "int64"])) if r is None else None,
         # the unit of the data is arbitrary: the same cloud in micro-units (x 2^-20) or mega-units (x 2^20)
         "scale_pow": draw(st.sampled_from([0, 0, 0, -20, 20])),
         "kind": kind,
         "side": side,
     }
+    case.update(draw(run_options(kind)))
+    return case
 
 
 def s_pca_random():
     return s_pca_random_case()
+
+
+@st.composite
+def s_pca_staged_case(draw):
+    """Histories whose rank grows: a long, rank-deficient start followed by samples that leave its subspace."""
+    kind = draw(st.sampled_from(["vector", "vector", "vector", "pointcloud", "image"]))
+    centre = draw(st.booleans())
+    data = draw(ri.staged_case(centre, even_d=(kind == "pointcloud")))
+    n, d = data["n"], data["d"]
+    # first history: the initial batch is exactly stage 1, later stages are cut further at drawn places;
+    # second history: any composition
+    bounds = ri.stage_bounds(data)
+    aligned = [bounds[0]]
+    for a, b in zip(bounds[:-1], bounds[1:]):
+        ln = b - a
+        if ln >= 2 and draw(st.booleans()):
+            c = draw(st.integers(1, ln - 1))
+            aligned += [c, ln - c]
+        else:
+            aligned.append(ln)
+    case = {
+        "data": data,
+        "splits": [aligned, draw(split_case(n))],
+        "zero_cols": draw(st.sampled_from([[], [], [], [0, 0], [1, 3]])) if kind == "vector" else [],
+        # (fixed-point rounding would push a rotated subspace's zero eigenvalues into the excluded grey zone: integer
+        # samples only where the deficiency is exact, i.e. stuck coordinates)
+        "int_data": draw(st.sampled_from([None, None, "int64"])) if data["family"] == "stuck" else None,
+        "scale_pow": draw(st.sampled_from([0, 0, 0, -20, 20])),
+        "kind": kind,
+        "side": "n>d" if n > d else ("n==d" if n == d else "n<d"),
+    }
+    case.update(draw(run_options(kind)))
+    return case
+
+
+def s_pca_staged():
+    return s_pca_staged_case()
 
 
 def _grey(eigs):
@@ -145,44 +248,105 @@ def _grey(eigs):
     return bool(np.any((rel > 1e-20) & (rel < 1e-8)))
 
 
-def _run_incremental(kind, x, centre, split, int_dtype=None):
-    """Builds the initial model on the first chunk and feeds the remaining chunks."""
+def _template(kind, d):
+    if kind == "pointcloud":
+        return PointCloud(np.zeros((d // 2, 2)))
+    if kind == "image":
+        c = 3 if d % 3 == 0 else (2 if d % 2 == 0 else 1)
+        rest = d // c
+        h = max(k for k in range(1, rest + 1) if rest % k == 0 and k * k <= rest)
+        return Image(np.zeros((c, h, rest // h)))
+    return None
+
+
+def _samples(rows, mode, tmpl, cast):
+    """The samples of one chunk in the requested form: (samples, keyword arguments)."""
+    k = rows.shape[0]
+    if tmpl is None:
+        if mode == "array":
+            return cast(rows), {}
+        if mode == "list":
+            return [cast(r) for r in rows], {}
+        if mode == "list_n_exact":
+            return [cast(r) for r in rows], {"n_samples": k}
+        if mode == "list_n":
+            # a longer list with n_samples=k: only the first k entries are samples
+            return [cast(r) for r in np.vstack([rows, ri.decoy_rows(rows)])], {"n_samples": k}
+        raise ValueError("unknown feed %r" % (mode,))
+    if mode == "list":
+        return [tmpl.from_vector(r.copy()) for r in rows], {}
+    if mode == "gen_n":
+        return (tmpl.from_vector(r.copy()) for r in rows), {"n_samples": k}
+    raise ValueError("unknown feed %r" % (mode,))
+
+
+@contextlib.contextmanager
+def _quiet(active):
+    if active:
+        with contextlib.redirect_stdout(io.StringIO()):
+            yield
+    else:
+        yield
+
+
+def _run_incremental(kind, x, centre, split, int_dtype=None, feed=None, ff_default=False, verbose=False, active=0):
+    """Builds the initial model on the first chunk and feeds the remaining chunks.
+
+    Returns (model, chunks, zero_mean_corner, k_active) - k_active is the number of active components requested on the
+    initial model through the public setter (None: left alone)."""
     edges = np.cumsum([0] + list(split))
     chunks = [x[edges[i] : edges[i + 1]] for i in range(len(split))]
     as_given = (lambda a: a.astype(int_dtype)) if (int_dtype and kind == "vector") else (lambda a: a.copy())
-    if kind == "vector":
-        # (the constructor centres its argument in place by default, which needs a float array: only the increments
-        # are handed over integer-typed)
-        m = PCAVectorModel(chunks[0].copy(), centre=centre)
-    else:
-        tmpl = PointCloud(np.zeros((x.shape[1] // 2, 2)))
-        m = PCAModel([tmpl.from_vector(r.copy()) for r in chunks[0]], centre=centre)
+    tmpl = _template(kind, x.shape[1])
+    if feed is None:
+        feed = "array" if kind == "vector" else "list"
+    # (the constructor centres its argument in place by default, which needs a float array: only the increments
+    # are handed over integer-typed)
+    first, kw = _samples(chunks[0], feed, tmpl, lambda a: a.copy())
+    with _quiet(verbose):
+        if kind == "vector":
+            m = PCAVectorModel(first, centre=centre, **kw)
+        else:
+            m = PCAModel(first, centre=centre, verbose=bool(verbose), **kw)
+    k_active = None
+    if active and m.n_components >= 2:
+        k_active = 1 + (int(active) - 1) % (m.n_components - 1)
+        m.n_active_components = k_active
     # the excluded corner (a centred model whose running mean is EXACTLY the zero vector) is decided from the data,
     # never from the state of the model under test
     seen = chunks[0]
     zero_mean_corner = centre and bool(np.all(seen.mean(axis=0) == 0))
     for c in chunks[1:]:
-        if kind == "vector":
-            m.increment(as_given(c), forgetting_factor=1.0)
-        else:
-            m.increment([tmpl.from_vector(r.copy()) for r in c], forgetting_factor=1.0)
+        samples, kw = _samples(c, feed, tmpl, as_given)
+        if not ff_default:
+            kw["forgetting_factor"] = 1.0
+        if verbose:
+            kw["verbose"] = True
+        with _quiet(verbose):
+            m.increment(samples, **kw)
         seen = np.vstack([seen, c])
         if centre and bool(np.all(seen.mean(axis=0) == 0)):
             zero_mean_corner = True
-    return m, chunks, zero_mean_corner
+    return m, chunks, zero_mean_corner, k_active
 
 
 def _summary(m):
+    """State of a model as seen through its public interface (all components active)."""
+    mean = m.mean()
+    if not isinstance(mean, np.ndarray):
+        mean = mean.as_vector()
     return {
         "n_samples": int(m.n_samples),
-        "mean": np.array(m._mean, dtype=float, copy=True),
-        "eigs": np.array(m._eigenvalues, dtype=float, copy=True),
-        "comps": np.array(m._components, dtype=float, copy=True),
+        "mean": np.array(mean, dtype=float, copy=True),
+        "eigs": np.array(m.eigenvalues, dtype=float, copy=True),
+        "comps": np.array(m.components, dtype=float, copy=True),
     }
 
 
-def _cmp_pca(ctx, got, want_n, want_mean, want_eigs, want_comps, prefix, sc, tol=1e-7):
-    """got: summary of the incremental model; want_*: batch model or reference."""
+def _cmp_pca(ctx, got, want_n, want_mean, want_eigs, want_comps, prefix, sc, tol=1e-7, single=True):
+    """got: summary of the incremental model; want_*: batch model or reference.
+
+    single=False: some eigenvalues nearly coincide, single eigenvectors are not compared (the subspace still is)."""
     ok = True
     ok &= ctx.expect(got["n_samples"] == want_n, prefix + ".n_samples", "%r vs %r" % (got["n_samples"], want_n))
     ok &= ctx.expect(
@@ -205,19 +369,53 @@ def _cmp_pca(ctx, got, want_n, want_mean, want_eigs, want_comps, prefix, sc, tol
     )
     dp = maxdiff(rp.projector(got["comps"]), rp.projector(want_comps))
     ok &= ctx.expect(dp <= tol, prefix + ".subspace", lambda: "projector difference %.3e" % dp)
-    dv = rp.sign_aligned_diff(got["comps"], want_comps)
-    ok &= ctx.expect(
-        dv <= 10 * tol,
-        prefix + ".components",
-        lambda: "max sign-aligned component difference %.3e" % dv,
-    )
+    if single:
+        dv = rp.sign_aligned_diff(got["comps"], want_comps)
+        ok &= ctx.expect(
+            dv <= 10 * tol,
+            prefix + ".components",
+            lambda: "max sign-aligned component difference %.3e" % dv,
+        )
     return ok
+
+
+def _prefix_analysis(ctx, x, centre, splits):
+    """Reference spectra of every prefix a history passes through.
+
+    Returns None when the case is excluded, else (kappa, ranks) with kappa = worst conditioning (lambda_max / smallest
+    numerically non-zero lambda) over all prefixes and ranks[e] = numerical rank of the first e samples."""
+    kappa = 1.0
+    ranks = {}
+    for split in splits:
+        for i, e in enumerate(np.cumsum(split)):
+            e = int(e)
+            _, pe, _ = rp.ref_pca(x[:e], centre)
+            # (decided on the samples themselves: the mean of three identical rows need not be that row exactly)
+            flat = bool(np.all(x[:e] == x[0][None, :])) if centre else not np.any(x[:e])
+            if flat or float(pe.max()) <= 0:
+                # every sample so far is the same vector (centred) / the zero vector (uncentred): a model without any
+                # component.  As an initial batch that is a legitimate start; as the RESULT of an increment it is the
+                # fully degenerate corner (no component before, none after), left out
+                if i > 0:
+                    ctx.event("excluded:increment_result_without_components")
+                    return None
+                ctx.event("initial batch without variance")
+                ranks[e] = 0
+                continue
+            if _grey(pe):
+                ctx.event("excluded:floor_grey_zone")
+                return None
+            pos = pe[pe > 1e-20 * pe.max()]
+            kappa = max(kappa, float(pe.max() / pos.min()))
+            ranks[e] = ri.numeric_rank(pe)
+    return kappa, ranks
 
 
 def c_pca(case, ctx):
     dc = case["data"]
-    x = rp.build_data(dc)
-    n, d, r, centre = dc["n"], dc["d"], dc["r"], dc["centre"]
+    staged = "stages" in dc
+    x = ri.build_staged(dc) if staged else rp.build_data(dc)
+    n, d, centre = dc["n"], dc["d"], dc["centre"]
     sp = int(case.get("scale_pow", 0))
     if sp and not case.get("int_data"):
         x = x * 2.0 ** sp  # exact in binary
@@ -242,31 +440,39 @@ def c_pca(case, ctx):
     sc = max(1.0, float(np.abs(x).max()))
     ctx.event("side=%s centre=%s" % (case["side"], centre))
     ctx.event("kind=%s" % kind)
+    if staged:
+        ctx.event("family=%s" % dc["family"])
 
     # skip cases where a prefix spectrum touches the eigenvalue floor (legitimate truncation);
     # kappa = worst conditioning (lambda_max / smallest numerically non-zero lambda) over all prefixes
-    kappa = 1.0
-    for split in case["splits"]:
-        for e in np.cumsum(split):
-            _, pe, _ = rp.ref_pca(x[:e], centre)
-            if _grey(pe):
-                ctx.event("excluded:floor_grey_zone")
-                return
-            pos = pe[pe > 1e-20 * pe.max()]
-            kappa = max(kappa, float(pe.max() / pos.min()))
-    ctx.event("prefix_cond<=1e4" if kappa <= 1e4 else ("prefix_cond<=1e6" if kappa <= 1e6 else "prefix_cond<=1e8"))
+    pa = _prefix_analysis(ctx, x, centre, case["splits"])
+    if pa is None:
+        return
+    kappa, ranks = pa
+    ctx.event("prefix_cond<=1e4" if kappa <= 1e4 else ("prefix_cond<=1e6" if kappa <= 1e6 else "prefix_cond>1e6"))
     # measured forward error of ipca is <= 1e-14 * kappa (components of a tiny prefix eigenvalue lose
     # orthogonality once the eigenspace saturates); tolerance is 100x that, never below the design's 1e-7
     tol = max(1e-7, 1e-12 * kappa)
 
     ref_mean, ref_eigs, ref_vt = rp.ref_pca(x, centre)
+    # rank of the whole data set: by construction, or (staged data) read off the reference spectrum, which the grey
+    # zone exclusion above keeps unambiguous
+    r = ranks[n] if staged else dc["r"]
+    if r < rp.full_rank(n, d - len(zc), centre):
+        ctx.event("whole data set rank-deficient")
+    # single eigenvectors are only defined as well as the eigenvalues are separated (by construction for the
+    # prescribed spectra; measured for staged data)
+    single = (not staged) or ri.min_rel_gap(ref_eigs[:r]) >= 1e-3
+    if not single:
+        ctx.event("nearly coinciding eigenvalues: subspace compared, single components not")
     batch = PCAVectorModel(x.copy(), centre=centre)
     sb = _summary(batch)
     # the batch model itself is C10's business; if it disagrees with the reference say so distinctly
     batch_ok = (
         sb["eigs"].shape == (r,)
         and bool(np.all(np.abs(sb["eigs"] - ref_eigs[:r]) <= 1e-7 * ref_eigs[:r]))
-        and rp.sign_aligned_diff(sb["comps"], ref_vt[:r]) <= 1e-6
+        and maxdiff(rp.projector(sb["comps"]), rp.projector(ref_vt[:r])) <= 1e-6
+        and (not single or rp.sign_aligned_diff(sb["comps"], ref_vt[:r]) <= 1e-6)
     )
     ctx.expect(batch_ok, "pca.batch_model_vs_reference", "batch model disagrees with the SVD reference (see C10)")
 
@@ -276,28 +482,157 @@ def c_pca(case, ctx):
         ctx.event("increments=%d" % len(incs))
         unequal = len(incs) >= 2 and len(set(incs)) > 1
         ctx.event("unequal" if unequal else ("single1" if 1 in incs else "plain"))
-        m, chunks, corner = _run_incremental(kind, x, centre, split, idt)
+        feed = case["feed"][si] if "feed" in case else None
+        ffd = bool(case["ff_default"][si]) if "ff_default" in case else False
+        verbose = bool(case["verbose"][si]) if "verbose" in case else False
+        active = int(case["active"][si]) if "active" in case else 0
+        ctx.event("feed=%s" % (feed or "default"))
+        ctx.event("forgetting_factor=%s" % ("default" if ffd else "1.0"))
+        if verbose:
+            ctx.event("verbose=True")
+        # the model being incremented has seen more samples than dimensions, is nevertheless rank deficient, and the
+        # increment raises the rank (new samples leave the subspace spanned so far)
+        bounds = [int(e) for e in np.cumsum(split)]
+        leaves = False
+        for a, b in zip(bounds[:-1], bounds[1:]):
+            deficient = ranks[a] < min(a - int(centre), d - len(zc))
+            if deficient and ranks[b] > ranks[a]:
+                ctx.event("rank-deficient model leaves its subspace (%s)" % ("n_a>d" if a > d else "n_a<=d"))
+                leaves = leaves or a > d
+        m, chunks, corner, k_active = _run_incremental(kind, x, centre, split, idt, feed, ffd, verbose, active)
         if corner:
             ctx.event("excluded:exact_zero_mean")
             return
-        ctx.nontrivial(unequal or 1 in incs or centre)
+        if staged:
+            ctx.nontrivial(leaves)
+        else:
+            ctx.nontrivial(unequal or 1 in incs or centre)
         ctx.expect(
             maxdiff(np.vstack(chunks), x) == 0.0, "harness.chunks", "chunks do not concatenate to the data"
         )
-        s = _summary(m)
-        summaries.append(s)
         tag = "centred" if centre else "uncentred"
-        _cmp_pca(ctx, s, n, sb["mean"], sb["eigs"], sb["comps"], "pca.vs_batch.%s" % tag, sc, tol)
-        _cmp_pca(ctx, s, n, ref_mean, ref_eigs[:r], ref_vt[:r], "pca.vs_reference.%s" % tag, sc, tol)
-        # the public view agrees with the state (all components active after increments)
+        if k_active is not None:
+            # fewer active components than components before the increments: the increments leave that choice alone,
+            # the active view shows the leading k components of the updated model, nothing of the full state is lost
+            ctx.event("n_active_components < n_components before the increments")
+            ctx.expect(
+                m.n_active_components == k_active,
+                "pca.active_components.count_changed_by_increment",
+                "n_active_components set to %d before the increments, %r afterwards (n_components=%r)"
+                % (k_active, m.n_active_components, m.n_components),
+            )
+            ka = int(m.n_active_components)
+            ev, cv = np.asarray(m.eigenvalues, dtype=float), np.asarray(m.components, dtype=float)
+            if ctx.expect(
+                ev.shape == (ka,) and cv.shape == (ka, d),
+                "pca.active_components.view_shape",
+                "n_active=%r eigenvalues %r components %r" % (ka, ev.shape, cv.shape),
+            ) and ka <= sb["eigs"].shape[0]:
+                ctx.expect(
+                    bool(np.all(np.abs(ev - sb["eigs"][:ka]) <= tol * sb["eigs"][:ka] + 1e-12 * sb["eigs"][0])),
+                    "pca.active_components.eigenvalues.%s" % tag,
+                    lambda: describe(ev, sb["eigs"][:ka]),
+                )
+            # back to all components through the public setter
+            m.n_active_components = int(m.n_components)
+        # the public view shows the whole state (all components active after increments)
+        ev, cv = np.asarray(m.eigenvalues), np.asarray(m.components)
         ctx.expect(
-            m.n_components == s["eigs"].shape[0] and np.asarray(m.components).shape[0] == m.n_active_components,
+            m.n_components == m.n_active_components == ev.shape[0] == cv.shape[0],
             "pca.counts_consistent",
-            "n_components=%r n_active=%r eigenvalues=%r" % (m.n_components, m.n_active_components, s["eigs"].shape),
+            "n_components=%r n_active=%r eigenvalues=%r components=%r"
+            % (m.n_components, m.n_active_components, ev.shape, cv.shape),
         )
+        s = _summary(m)
+        if kind != "vector":
+            mv = np.asarray(m.mean_vector, dtype=float)
+            ctx.expect(
+                mv.shape == s["mean"].shape and bool(np.array_equal(mv, s["mean"])),
+                "pca.mean_vector_vs_mean",
+                lambda: describe(mv, s["mean"]),
+            )
+        summaries.append(s)
+        _cmp_pca(ctx, s, n, sb["mean"], sb["eigs"], sb["comps"], "pca.vs_batch.%s" % tag, sc, tol, single)
+        _cmp_pca(ctx, s, n, ref_mean, ref_eigs[:r], ref_vt[:r], "pca.vs_reference.%s" % tag, sc, tol, single)
     if len(summaries) == 2:
         a, b = summaries
-        _cmp_pca(ctx, a, b["n_samples"], b["mean"], b["eigs"], b["comps"], "pca.chunking_dependence", sc, tol)
+        _cmp_pca(ctx, a, b["n_samples"], b["mean"], b["eigs"], b["comps"], "pca.chunking_dependence", sc, tol, single)
+
+
+# ----------------------------------------------------------------------------------------------
+# ipca called directly without a mean (m_a=None): uncentred update
+
+
+@st.composite
+def s_ipca_case(draw):
+    side = draw(st.sampled_from(["n>d", "n>d", "n==d", "n<d"]))
+    n = draw(st.integers(4, 12))
+    if side == "n>d":
+        d = draw(st.integers(2, n - 1))
+    elif side == "n==d":
+        d = n
+    else:
+        d = draw(st.integers(n + 1, n + 4))
+    full = rp.full_rank(n, d, False)
+    r = None
+    if full >= 2 and draw(st.integers(0, 3)) == 0:
+        r = draw(st.integers(1, full - 1))
+    return {
+        "data": draw(rp.data_case(n, d, False, r=r, spread=100.0, s0=(1.0, 8.0))),
+        "split": draw(split_case(n)),
+        # the mean argument: left out, None, or a vector of zeros (all documented as "do not centre")
+        "m_a": draw(st.sampled_from(["none", "omitted", "none", "zeros"])),
+        "f": draw(st.sampled_from(["omitted", "1.0"])),
+        "side": side,
+    }
+
+
+def s_ipca():
+    return s_ipca_case()
+
+
+def c_ipca(case, ctx):
+    dc = case["data"]
+    x = rp.build_data(dc)
+    n, d, r = dc["n"], dc["d"], dc["r"]
+    split = case["split"]
+    ctx.event("side=%s" % case["side"])
+    ctx.event("m_a=%s f=%s" % (case["m_a"], case["f"]))
+    pa = _prefix_analysis(ctx, x, False, [split])
+    if pa is None:
+        return
+    kappa, _ = pa
+    tol = max(1e-7, 1e-12 * kappa)
+    sc = max(1.0, float(np.abs(x).max()))
+    incs = split[1:]
+    unequal = len(incs) >= 2 and len(set(incs)) > 1
+    ctx.nontrivial(unequal or 1 in incs or len(incs) >= 2)
+    edges = np.cumsum([0] + list(split))
+    chunks = [x[edges[i] : edges[i + 1]] for i in range(len(split))]
+    u, l, _ = menpo_pca(chunks[0].copy(), centre=False)
+    n_a = chunks[0].shape[0]
+    m = None
+    for c in chunks[1:]:
+        kw = {}
+        if case["m_a"] == "none":
+            kw["m_a"] = None
+        elif case["m_a"] == "zeros":
+            kw["m_a"] = np.zeros(d)
+        if case["f"] == "1.0":
+            kw["f"] = 1.0
+        u, l, m = menpo_ipca(c.copy(), u, l, n_a, **kw)
+        n_a += c.shape[0]
+        if not ctx.expect(
+            isinstance(m, np.ndarray) and m.shape == (d,) and not np.any(m != 0),
+            "ipca.uncentred.returned_mean_not_zero_vector",
+            lambda: "returned mean %r" % (m,),
+        ):
+            return
+    got = {"n_samples": n_a, "mean": np.asarray(m, dtype=float), "eigs": np.asarray(l, float), "comps": np.asarray(u, float)}
+    ref_mean, ref_eigs, ref_vt = rp.ref_pca(x, False)
+    bu, bl, bm = menpo_pca(x.copy(), centre=False)
+    _cmp_pca(ctx, got, n, np.asarray(bm, float), np.asarray(bl, float), np.asarray(bu, float), "ipca.uncentred.vs_batch_pca", sc, tol)
+    _cmp_pca(ctx, got, n, ref_mean, ref_eigs[:r], ref_vt[:r], "ipca.uncentred.vs_reference", sc, tol)
 
 
 # ==============================================================================================
@@ -367,6 +702,7 @@ def s_gmrf_case(draw):
     block = f if (not g["edges"] or mode == "subtraction") else 2 * f
     n0 = max(2 * block + 2, nfeat + 1) + draw(st.integers(0, 4))
     incs = draw(st.lists(st.integers(1, 4), min_size=1, max_size=4))
+    model = draw(st.sampled_from(["vector", "vector", "object"]))
     return {
         "graph": g,
         "f": f,
@@ -379,7 +715,13 @@ def s_gmrf_case(draw):
         "s": draw(st.lists(gen.q(0.5, 2.0), min_size=nfeat, max_size=nfeat)),
         "mean": draw(gen.vec(nfeat, -10, 10)),
         # vector-backed GMRFVectorModel or the PointCloud-backed GMRFModel (vertices = points, features = dims)
-        "model": draw(st.sampled_from(["vector", "vector", "object"])),
+        "model": model,
+        # the cloud may sit far from the origin compared with its spread (|mean| / sigma up to 2e4): the running
+        # covariance update subtracts large second moments there
+        "mean_scale": draw(st.sampled_from([1, 1, 1, 100, 100, 1000])),
+        # ndarray / list of rows / longer list + n_samples=k (vector model); list / true generator + n_samples=k (object model)
+        "feed": draw(st.sampled_from(VECTOR_FEEDS if model == "vector" else OBJECT_FEEDS)),
+        "verbose": draw(st.sampled_from([False, False, False, True])),
     }
 
 
@@ -405,7 +747,8 @@ def build_gmrf_data(case):
     q, _ = np.linalg.qr(z)  # n x nfeat, orthonormal columns orthogonal to ones
     w, _ = np.linalg.qr(rs.randn(nfeat, nfeat))
     x = np.sqrt(n - 1.0) * (q * np.asarray(case["s"], dtype=float)[None, :]).dot(w.T)
-    return np.ascontiguousarray(x + np.asarray(case["mean"], dtype=float)[None, :])
+    mean = np.asarray(case["mean"], dtype=float) * float(case.get("mean_scale", 1))
+    return np.ascontiguousarray(x + mean[None, :])
 
 
 def _cov(a, bias):
@@ -476,27 +819,47 @@ def c_gmrf(case, ctx):
     kw = dict(mode=mode, sparse=sparse, bias=bias, dtype=np.float64)
     obj = case.get("model", "vector") == "object"
     ctx.event("model=%s" % ("GMRFModel" if obj else "GMRFVectorModel"))
-    as_samples = (lambda a: [PointCloud(r.reshape(g["nv"], f).copy()) for r in a]) if obj else (lambda a: a.copy())
+    tmpl = PointCloud(np.zeros((g["nv"], f))) if obj else None
+    feed = case.get("feed", "list" if obj else "array")
+    verbose = bool(case.get("verbose", False))
+    ctx.event("feed=%s" % feed)
+    if verbose:
+        ctx.event("verbose=True")
+    # far-from-origin data: |mean| / sigma_min decides how much the running second-moment update cancels
+    mscale = float(case.get("mean_scale", 1))
+    ctx.event("mean_scale=%g" % mscale)
+    far = float(np.abs(np.asarray(case["mean"], dtype=float)).max()) * mscale / float(min(case["s"]))
+    # measured: relative error of the incremental precision <= 4 * eps * (|mean|/sigma_min)^2 (1e-13 near the origin)
+    rtol_inc = max(1e-8, 2e2 * np.finfo(float).eps * far**2)
+    matol = 2e-9 * mscale
     cls = GMRFModel if obj else GMRFVectorModel
-    inc = cls(as_samples(chunks[0]), graph, incremental=True, **kw)
+    first, fkw = _samples(chunks[0], feed, tmpl, lambda a: a.copy())
+    with _quiet(verbose):
+        inc = cls(first, graph, incremental=True, verbose=verbose, **dict(kw, **fkw))
     seen = chunks[0].shape[0]
+    ctx.expect(inc.n_samples == seen, "gmrf.n_samples", "initial batch of %d samples: n_samples=%r" % (seen, inc.n_samples))
     for c in chunks[1:]:
-        inc.increment(as_samples(c))
+        samples, ikw = _samples(c, feed, tmpl, lambda a: a.copy())
+        if verbose:
+            ikw["verbose"] = True
+        with _quiet(verbose):
+            inc.increment(samples, **ikw)
         seen += c.shape[0]
         ctx.expect(inc.n_samples == seen, "gmrf.n_samples", "after %d samples n_samples=%r" % (seen, inc.n_samples))
         mv = np.asarray(inc.mean_vector, dtype=float)
         want = x[:seen].sum(axis=0) / seen
-        ctx.expect(close(mv, want, atol=1e-10 * 20), "gmrf.mean_after_increment", lambda: describe(mv, want))
+        ctx.expect(close(mv, want, atol=matol, rtol=0.0), "gmrf.mean_after_increment", lambda: describe(mv, want))
+    as_samples = (lambda a: [tmpl.from_vector(r.copy()) for r in a]) if obj else (lambda a: a.copy())
     batch = cls(as_samples(np.vstack(chunks)), build_graph(g), incremental=False, **kw)
 
     ctx.expect(inc.n_samples == batch.n_samples == n, "gmrf.n_samples", "%r vs batch %r (N=%d)" % (inc.n_samples, batch.n_samples, n))
     ctx.expect(
-        close(inc.mean_vector, batch.mean_vector, atol=1e-10 * 20),
+        close(inc.mean_vector, batch.mean_vector, atol=matol, rtol=0.0),
         "gmrf.mean_vs_batch",
         lambda: describe(inc.mean_vector, batch.mean_vector),
     )
     ctx.expect(
-        close(np.asarray(inc.mean().as_vector() if obj else inc.mean()), x.sum(axis=0) / n, atol=1e-10 * 20),
+        close(np.asarray(inc.mean().as_vector() if obj else inc.mean()), x.sum(axis=0) / n, atol=matol, rtol=0.0),
         "gmrf.mean_vs_reference",
         lambda: describe(inc.mean().as_vector() if obj else inc.mean(), x.sum(axis=0) / n),
     )
@@ -516,12 +879,12 @@ def c_gmrf(case, ctx):
         lambda: "batch model disagrees with the reference (see C12)\n" + describe(pb, ref),
     )
     ctx.expect(
-        close(pi, pb, rtol=1e-8),
+        close(pi, pb, rtol=rtol_inc),
         "gmrf.precision_vs_batch.%s.bias%d" % (tag, bias),
         lambda: "increments %r after %d\n%s" % (incs, case["n0"], describe(pi, pb)),
     )
     ctx.expect(
-        close(pi, ref, rtol=1e-8),
+        close(pi, ref, rtol=rtol_inc),
         "gmrf.precision_vs_reference.%s.bias%d" % (tag, bias),
         lambda: "increments %r after %d\n%s" % (incs, case["n0"], describe(pi, ref)),
     )
@@ -532,7 +895,7 @@ CLAUSES = [
         "pca_compositions",
         c_pca,
         enumerate=enum_pca,
-        rule="every composition of n = 4..6 (quick) / 4..8 (thorough) into initial batch >= 2 + increments, x {centred, uncentred} x {n>d, n==d, n<d} x 2 fixed data sets",
+        rule="every composition of n = 4..6 (quick) / 4..8 (thorough) into initial batch >= 2 + increments, x {centred, uncentred} x {n>d, n==d, n<d} x 2 fixed data sets; samples as ndarray / list / longer list + n_samples, forgetting factor spelled out or defaulted, alternating over the enumeration",
     ),
     Clause(
         "pca_random",
@@ -541,7 +904,25 @@ CLAUSES = [
         quick=1500,
         thorough=20000,
         nt_floor=0.3,
-        rule="n = 4..16, two drawn compositions of the same data compared with batch, reference and each other; vector and PointCloud-backed models",
+        rule="n = 4..16, full-rank or rank-deficient data, two drawn compositions of the same data compared with batch, reference and each other; vector, PointCloud- and Image-backed models; samples as ndarray / list / list + n_samples / generator + n_samples; default or explicit forgetting factor; verbose; fewer active components than components before the increments",
+    ),
+    Clause(
+        "pca_rank_growth",
+        c_pca,
+        s_pca_staged,
+        quick=1500,
+        thorough=20000,
+        nt_floor=0.3,
+        rule="staged histories: a first stage (mostly longer than d) confined to a proper subspace - rotated subspace, stuck coordinates, repeated samples - followed by 1-3 stages that leave it; one history cut at the stage boundaries, one drawn composition; non-trivial: a model that has seen more samples than dimensions and is rank deficient receives an increment that raises the rank",
+    ),
+    Clause(
+        "ipca_uncentred_direct",
+        c_ipca,
+        s_ipca,
+        quick=600,
+        thorough=8000,
+        nt_floor=0.3,
+        rule="menpo.math.ipca called directly with m_a omitted / None / zeros on uncentred data (full rank or not), chained over a drawn composition, vs menpo.math.pca(centre=False) on the concatenation and the SVD reference; non-trivial: >= 2 increments or an increment of one sample",
     ),
     Clause(
         "gmrf",
@@ -550,6 +931,6 @@ CLAUSES = [
         quick=2500,
         thorough=20000,
         nt_floor=0.3,
-        rule="graph kind x class x features x mode x storage x bias; non-trivial: >= 2 unequal increments or an increment of one sample",
+        rule="graph kind x class x features x mode x storage x bias x distance from the origin x sample container; non-trivial: >= 2 unequal increments or an increment of one sample",
     ),
 ]
